@@ -72,7 +72,7 @@ func (c Cfg) env() map[string]string {
 	if c.Procs > 0 {
 		e["GOMAXPROCS"] = strconv.Itoa(c.Procs)
 	}
-	if c.Sched != "" {
+	if c.Sched != "" && !c.NoHooks {
 		e["VERIF_SCHED"] = c.Sched
 	}
 	if c.Crash != "" {
